@@ -1293,10 +1293,11 @@ def check_model(ctx: Ctx, m: Model, budget: Budget, with_model: bool, enumerated
             ctx.traces_validated += 1
             if fn == "wf":
                 ctx.hit("wf=" + ans[:1])
-                for cname, bit in zip(names, ans[1:]):
+                ctx.hit("wfXml=" + ans[1:2])
+                for cname, bit in zip(names, ans[2:]):
                     ctx.hit("dispatchOkFor=" + bit)
-                if ans[:1] != "1":
-                    ctx.note(f"accepted meta-model {m.label} is not MM.wf")
+                if ans[:2] != "11":
+                    ctx.note(f"accepted meta-model {m.label} is not MM.wf / MM.wfXml: {ans[:2]}")
                     ctx.sample({"not-wf": m.source})
                 continue
             if fn == "conforms":
